@@ -3,12 +3,12 @@ module verifharness
 go 1.20
 
 require (
+	github.com/ghodss/yaml v1.0.0
 	github.com/keybase/go-crypto v0.0.0-20200123153347-de78d2cb44f4
 	github.com/wokdav/gopki v0.0.0
 )
 
 require (
-	github.com/ghodss/yaml v1.0.0 // indirect
 	github.com/santhosh-tekuri/jsonschema v1.2.4 // indirect
 	gopkg.in/yaml.v2 v2.4.0 // indirect
 )
